@@ -379,6 +379,13 @@ impl Env {
         self.unlocked
     }
 
+    /// Reports whether this process was started by `redo-unlocked` to
+    /// settle a target out of band (rather than by a build script).
+    #[inline]
+    pub fn is_no_oob(&self) -> bool {
+        self.no_oob
+    }
+
     /// If file locking is broken, update the environment accordingly.
     pub(crate) fn mark_locks_broken(&mut self) {
         env::set_var(ENV_LOCKS_BROKEN, "1");
